@@ -82,8 +82,9 @@ def consumes(F, path, stack=()):
     return res
 
 
-def skeleton(body, peers=(), F=None, distinct=False):
-    """[(kind, detail, in_loop)] in reverse post-order."""
+def skeleton(body, peers=(), F=None, distinct=False, inline=None, _stack=()):
+    """[(kind, detail, in_loop)] in reverse post-order.  `inline(path) -> bool` says which local parsing helpers are
+    expanded in place (helpers that exist in one fork only, or a function the caller wants to look through)."""
     loops = body.natural_loops()
     loop_blocks = set()
     for blk in loops.values():
@@ -104,6 +105,11 @@ def skeleton(body, peers=(), F=None, distinct=False):
                 and nm not in ("program", "new", "expression_analyser"):
             if F is not None and not consumes(F, c.callee):
                 continue  # bookkeeping helper that never touches the token cursor
+            if inline is not None and F is not None and c.callee in F.bodies and c.callee not in _stack and \
+                    c.callee != body.path and inline(c.callee):
+                for (k2, d2, l2) in skeleton(F.bodies[c.callee], peers, F, False, inline, _stack + (body.path,)):
+                    out.append((k2, d2, inl or l2))
+                continue
             out.append(("call", nm, inl))
     if distinct:
         seen = []
